@@ -44,6 +44,19 @@ def make_order(eng, c, rec):
     return order
 
 
+def relabelled(g, c):
+    """graph, canonical-name map and linked edges under the relabelling of configuration c (identity if none)."""
+    if not c.relabel:
+        return g, None, c.linked
+    f = {old: new for old, new in c.relabel}
+    g2 = {f.get(k, k): [f.get(x, x) for x in v] for k, v in g.items()}
+    canon = {f.get(k, k): k for k in g}
+    linked = None
+    if c.linked:
+        linked = {(f.get(a, a), f.get(b, b)): [(f.get(x, x), f.get(y, y)) for x, y in v] for (a, b), v in c.linked.items()}
+    return g2, canon, linked
+
+
 def install_values_all_stub():
     """Environment stub for hash-order: LatticeColumn.values_all returns its entries in the order chosen by the
     listing-order environment (identity = sorted by key)."""
@@ -151,7 +164,8 @@ def run(inst, claims_fn, witness_fn=None, engine=None, timeout_ms=10000, split_d
             rec = {}
             orders.append(rec)
             CURRENT_ORDER = make_order(eng, c, rec)
-            mp = AbsMap(g, linked=c.linked, self_listed=c.self_listed, order=CURRENT_ORDER)
+            g2, canon, linked2 = relabelled(g, c)
+            mp = AbsMap(g2, linked=linked2, self_listed=c.self_listed, order=CURRENT_ORDER, canon=canon, scale=c.scale)
             return mp, make_matcher(eng, mp, c)
         try:
             res, path, mp, mt = apply_ops(factory, ops, unique=unique, hook=hook_fn)
@@ -176,7 +190,8 @@ def run(inst, claims_fn, witness_fn=None, engine=None, timeout_ms=10000, split_d
                 rec = {k: list(v) for k, v in (recs[gen[0]] if gen[0] < len(recs) else {}).items()}
                 gen[0] += 1
                 CURRENT_ORDER = make_order(None, c, rec)
-                mp = TableMap(g, table, linked=c.linked, self_listed=c.self_listed, default=0.0, order=CURRENT_ORDER)
+                g2, canon, linked2 = relabelled(g, c)
+                mp = TableMap(g2, table, linked=linked2, self_listed=c.self_listed, default=0.0, order=CURRENT_ORDER, canon=canon, scale=c.scale)
                 mt = make_matcher(None, mp, c)
                 concrete_thresholds(mt, c, thr)
                 return mp, mt
